@@ -11,7 +11,7 @@ FAULT_FOCUS = {
     "C01": ["dep_pending_parent", "dep_order", "dep_late"],
     "C02": ["construct_completed", "construct_assigned", "construct_dup", "construct_cpu0", "construct_ram0",
             "construct_empty"],
-    "C03": ["oversell_cpu", "oversell_ram", "oversell_cpu", "oversell_ram", "sus_not_boundary"],
+    "C03": ["oversell_cpu", "oversell_ram", "oversell_cpu", "oversell_ram", "sus_not_boundary", "opcount", "opcount"],
     "C04": [],
     "C05": [],
     "C09": ["pool_range_asg", "pool_range_sus", "pool_range_asg"],
